@@ -19,6 +19,7 @@ import (
 	"github.com/influxdata/influxdb/pkg/estimator"
 	"github.com/influxdata/influxdb/pkg/estimator/hll"
 	"github.com/influxdata/influxdb/pkg/limiter"
+	"github.com/influxdata/influxdb/pkg/verifhook"
 	"github.com/influxdata/influxdb/query"
 	"github.com/influxdata/influxql"
 	"go.uber.org/zap"
@@ -1464,6 +1465,9 @@ func (s *Store) DeleteSeries(database string, sources []influxql.Source, conditi
 		// install our guard and wait for any prior deletes to finish. the
 		// guard ensures future deletes that could conflict wait for us.
 		waiter := epochs[sh.id].WaitDelete(newGuard(min, max, names, condition))
+		if verifhook.Enabled {
+			verifhook.Yield("store.delete.guard.installed", sh.id, names)
+		}
 		waiter.Wait()
 		defer waiter.Done()
 
